@@ -490,7 +490,8 @@ impl Iterator for Iter<'_> {
 
     #[inline(always)]
     fn size_hint(&self) -> (usize, Option<usize>) {
-        (self.cv.len(), Some(self.cv.len()))
+        let n = self.cv.len() - self.pos;
+        (n, Some(n))
     }
 }
 
